@@ -141,7 +141,7 @@ def callee_res(t):
 
 
 class Facts:
-    def __init__(self, d):
+    def __init__(self, d, normalise=True):
         self.dir = d
         self.fns = {}
         self.adts = {}
@@ -150,8 +150,22 @@ class Facts:
         self.crate_of_root = {}
         self.counts = {}
         self.consts = {}
+        from . import inline
+        texts = {c: open(os.path.join(d, "facts", c + ".json")).read() for c in CRATES}
+        raw = {c: json.loads(t) for c, t in texts.items()}
+        self.renamed = {"functions": {}, "fields": {}}
+        base = inline.baseline() if normalise else None
+        if base:
+            # private items that only changed their name since the rules' baseline get the baseline name back
+            fn_map, field_map = inline.detect_renames(raw, base)
+            if fn_map:
+                raw = {c: json.loads(inline.apply_fn_renames(t, fn_map)) for c, t in texts.items()}
+                self.renamed["functions"] = fn_map
+            if field_map:
+                inline.apply_field_renames(raw, field_map)
+                self.renamed["fields"] = {"%s.%s" % k: v for k, v in field_map.items()}
         for c in CRATES:
-            j = json.load(open(os.path.join(d, "facts", c + ".json")))
+            j = raw[c]
             self.counts[c] = len([f for f in j["fns"] if not f.get("external") and f.get("kind") != "Promoted"])
             for f in j["fns"]:
                 if f.get("external"):
@@ -202,7 +216,7 @@ class Facts:
 def load(repo=None, extra_rustflags="", normalise=True):
     d, secs = build_facts(repo, extra_rustflags)
     try:
-        f = Facts(d)
+        f = Facts(d, normalise)
         f.inlined = {}
         if normalise:
             from . import inline
